@@ -1522,8 +1522,9 @@ def sha256(expression: exp.Expression) -> exp.Expression:
         exp.Expression: The transformed expression.
     """
 
+    # the argument is transformed here because transform() doesn't descend into the node returned for this one
     if isinstance(expression, exp.SHA2) and expression.args.get("length", exp.Literal.number(256)).this == "256":
-        return SHA256(this=expression.this)
+        return SHA256(this=expression.this.transform(sha256))
     elif (
         isinstance(expression, exp.Anonymous)
         and expression.this.upper() == "SHA2_HEX"
@@ -1532,7 +1533,7 @@ def sha256(expression: exp.Expression) -> exp.Expression:
             or (len(expression.expressions) == 2 and expression.expressions[1].this == "256")
         )
     ):
-        return SHA256(this=expression.expressions[0])
+        return SHA256(this=expression.expressions[0].transform(sha256))
     elif (
         isinstance(expression, exp.Anonymous)
         and expression.this.upper() == "SHA2_BINARY"
@@ -1541,6 +1542,6 @@ def sha256(expression: exp.Expression) -> exp.Expression:
             or (len(expression.expressions) == 2 and expression.expressions[1].this == "256")
         )
     ):
-        return exp.Unhex(this=SHA256(this=expression.expressions[0]))
+        return exp.Unhex(this=SHA256(this=expression.expressions[0].transform(sha256)))
 
     return expression
